@@ -51,6 +51,78 @@ def node_sig(kind, st, child_abs):
     return "C24/%s/%s/%s" % (op, kind, ",".join(c[0] for c in child_abs) or "leaf")
 
 
+_NARY = {"__add__": "add", "__sub__": "sub", "__mul__": "mul", "__and__": "and", "__or__": "or", "__xor__": "xor"}
+
+
+def real_blame(e_st, xs, envs):
+    """The failing tree node, seen as the backend evaluates it: construction-time rewriting flattens chains of one operator
+    (1 * (v * v) -> __mul__(1, v, v)) and drops identities, BackendVSA.convert excavates If above the operators
+    (7 * If(c, a, b) -> If(c, 7 * a, 7 * b)) and folds n-ary nodes from the left (functools.reduce).  Walks THAT AST in
+    post-order (concrete values: vsa_expr.ev_ast, independent of claripy's backends) -> (pseudo tree node, abstract values of
+    its operands) of the first step whose result misses one of its concrete values; None when no step fails alone or an
+    operator is outside the vocabulary."""
+    import claripy, operator
+    names = [x.args[0] for x in xs]
+    envd = [dict(zip(names, env)) for env in envs]
+    fns = {"add": operator.add, "sub": operator.sub, "mul": operator.mul, "and": operator.and_, "or": operator.or_, "xor": operator.xor}
+    try:
+        root = claripy.excavate_ite(e_st)
+    except Exception:  # noqa
+        return None
+    order, seen = [], set()
+
+    def walk(n):
+        if n.hash() in seen:
+            return
+        seen.add(n.hash())
+        for c in n.args:
+            if hasattr(c, "op"):
+                walk(c)
+        order.append(n)
+    walk(root)
+    for n in order:
+        if n.op in ("BVS", "BVV", "BoolV", "BoolS"):
+            continue
+        try:
+            vals = [vx.ev_ast(n, d) for d in envd]
+        except (vx.Unmodelled, KeyError):
+            return None
+        a = vx.abstract(n)
+        if a[0] == "err" or all(v is None or vx.contains(a, v) for v in vals):
+            continue
+        kids = [c for c in n.args if hasattr(c, "op")]
+        if n.op in _NARY and len(n.args) >= 2:
+            fn, w = fns[_NARY[n.op]], n.size()
+            try:
+                conv = [claripy.backends.vsa.convert(c) for c in n.args]
+                cvals = [[vx.ev_ast(c, d) for d in envd] for c in n.args]
+                acc, accv = conv[0], cvals[0]
+                for c, cv in zip(conv[1:], cvals[1:]):
+                    new = fn(acc, c)
+                    newv = [None if (p is None or q is None) else fn(p, q) & ((1 << w) - 1) for p, q in zip(accv, cv)]
+                    if any(v is not None and not vx.contains(vsa_sets.canon_obj(new), v) for v in newv):
+                        return ("bin", _NARY[n.op], None, None), [vsa_sets.canon_obj(acc), vsa_sets.canon_obj(c)]
+                    acc, accv = new, newv
+            except Exception:  # noqa
+                return None
+            return None
+        child_abs = [vx.abstract(c) for c in kids]
+        if n.op in vx._FOLD:
+            return ("bin", vx._FOLD[n.op], None, None), child_abs
+        if n.op in vx._CMP:
+            return ("cmp", vx._CMP[n.op], None, None), child_abs
+        if n.op in ("__neg__", "__invert__"):
+            return ("un", "neg" if n.op == "__neg__" else "not", None), child_abs
+        if n.op in ("ZeroExt", "SignExt"):
+            return ("zext" if n.op == "ZeroExt" else "sext", n.args[0], None), child_abs
+        if n.op == "Extract":
+            return ("extract", n.args[0], n.args[1], None), child_abs
+        if n.op in ("Concat", "If", "Not", "And", "Or"):
+            return ({"Concat": "concat", "If": "if", "Not": "not", "And": "and", "Or": "or"}[n.op],), child_abs
+        return None
+    return None
+
+
 def analyse(tree, annos, tag):
     """-> None | (signature, what, blamed-subtree-string)"""
     vw = [t[0] for t in annos]
@@ -109,6 +181,13 @@ def analyse(tree, annos, tag):
                     sig = "C24/%s/unsound/same-name-different-value:%s" % (st[1], "+".join(sorted({outer(c) for c in kids})))
                     return (sig, "%s with %s: %s; failing node %s = %s over children %s; the same comparison of fresh intervals gives %s" % (
                         vx.show(tree), [vsa.show(t) for t in annos], bad[1], vx.show(st), a, child_abs, fresh), vx.show(st))
+            if kind == "unsound":
+                rb = real_blame(vx.build(st, xs), xs, envs)
+                if rb and (rb[0][:2] != st[:2] or rb[1] != child_abs):
+                    # the operation the backend performed is not the one the tree shows: classify that one
+                    return (node_sig(kind, rb[0], rb[1]), "%s with %s: %s; failing node %s = %s over children %s; the backend evaluates the "
+                            "rewritten / If-excavated form and its first failing step is %s over %s" % (
+                                vx.show(tree), [vsa.show(t) for t in annos], bad[1], vx.show(st), a, child_abs, rb[0][1] if len(rb[0]) > 1 and isinstance(rb[0][1], str) else rb[0][0], rb[1]), vx.show(st))
             return (node_sig(kind, st, child_abs), "%s with %s: %s; failing node %s = %s over children %s" % (
                 vx.show(tree), [vsa.show(t) for t in annos], bad[1], vx.show(st), a, child_abs), vx.show(st))
     # every node is locally fine but the whole is not (construction-time rewriting or ITE excavation changed the meaning)
@@ -139,6 +218,10 @@ def solver_queries(tree, annos, tag):
         if type(ex).__name__ == "ClaripyZeroDivisionError":
             return None      # a division by an abstract zero: exempt
         return ("C24/SolverVSA/err:%s" % type(ex).__name__, "%s: %r" % (vx.show(tree), ex))
+    if mn is None or mx is None:
+        # the abstract value is empty (min/max of an empty interval are None) although the expression takes values
+        return ("C24/SolverVSA/min-max-of-empty-value", "%s with %s: min() = %s, max() = %s (empty abstract value) but the value %d occurs" % (
+            vx.show(tree), [vsa.show(t) for t in annos], mn, mx, vals[0]))
     if mn > vals[0]:
         return ("C24/SolverVSA/min-too-large", "%s with %s: min() = %d but the value %d occurs" % (vx.show(tree), [vsa.show(t) for t in annos], mn, vals[0]))
     if mx < vals[-1]:
